@@ -75,6 +75,90 @@ fn subst_query(q: &Query, def: &Query) -> Query {
     n
 }
 
+/// qualify every reference to one of the view's columns with the alias `vx`
+fn requal_expr(e: &mut Expr, names: &[String]) {
+    match e {
+        Expr::Col { qual, name } => {
+            if names.iter().any(|n| n == name) && qual.as_deref().map(|q| q == "v0").unwrap_or(true) {
+                *qual = Some("vx".into());
+            }
+        }
+        Expr::Bin(a, _, b) => {
+            requal_expr(a, names);
+            requal_expr(b, names);
+        }
+        Expr::Not(a) | Expr::Neg(a) | Expr::IsNull(a, _) | Expr::IsTrue(a) => requal_expr(a, names),
+        Expr::Between { e, lo, hi, .. } => {
+            requal_expr(e, names);
+            requal_expr(lo, names);
+            requal_expr(hi, names);
+        }
+        Expr::InList { e, list, .. } => {
+            requal_expr(e, names);
+            for x in list {
+                requal_expr(x, names);
+            }
+        }
+        Expr::Like { e, .. } => requal_expr(e, names),
+        Expr::Case { whens, els } => {
+            for (c, v) in whens {
+                requal_expr(c, names);
+                requal_expr(v, names);
+            }
+            if let Some(x) = els {
+                requal_expr(x, names);
+            }
+        }
+        Expr::Coalesce(v) | Expr::Func { args: v, .. } => {
+            for x in v {
+                requal_expr(x, names);
+            }
+        }
+        Expr::Agg { arg, .. } => {
+            if let Some(a) = arg {
+                requal_expr(a, names);
+            }
+        }
+        Expr::Lit(_) | Expr::ScalarSub(_) | Expr::InSub { .. } | Expr::Exists { .. } | Expr::Raw(_) => {}
+    }
+}
+fn alias_from(f: &mut FromItem, names: &[String]) {
+    match f {
+        FromItem::Table { name, alias } if name == "v0" && alias.is_none() => *alias = Some("vx".into()),
+        FromItem::Table { .. } | FromItem::Derived { .. } => {}
+        FromItem::Join { l, r, on, .. } => {
+            alias_from(l, names);
+            alias_from(r, names);
+            if let Some(o) = on {
+                requal_expr(o, names);
+            }
+        }
+    }
+}
+/// `FROM v0` becomes `FROM v0 AS vx` and every reference to its columns `vx.<col>`
+fn alias_view(q: &mut Query, names: &[String]) {
+    fn set(s: &mut SetExpr, names: &[String]) {
+        match s {
+            SetExpr::Select(sel) => {
+                for f in sel.from.iter_mut() {
+                    alias_from(f, names);
+                }
+                for (e, _) in sel.items.iter_mut() {
+                    requal_expr(e, names);
+                }
+                for e in sel.where_.iter_mut().chain(sel.having.iter_mut()).chain(sel.group_by.iter_mut()) {
+                    requal_expr(e, names);
+                }
+            }
+            SetExpr::Op { l, r, .. } => {
+                set(l, names);
+                set(r, names);
+            }
+        }
+    }
+    set(&mut q.body, names);
+}
+
 impl C32Case {
     /// the defining query with its output columns named as the view's columns
     fn def_named(&self) -> Query {
@@ -211,7 +295,13 @@ impl Check for C32 {
                 break;
             }
         }
-        let outer = outer.unwrap_or_else(|| Query::of(Select { from: vec![FromItem::table("v0")], ..Default::default() }));
+        let mut outer = outer.unwrap_or_else(|| Query::of(Select { from: vec![FromItem::table("v0")], ..Default::default() }));
+        // one third of the cases reference the view through an alias with qualified columns
+        if !avoid(".view_alias") && t.chance(1, 3) {
+            let names: Vec<String> = w2.tables[0].cols.iter().map(|c| c.name.clone()).collect();
+            alias_view(&mut outer, &names);
+            ofeats.push("view_alias".to_string());
+        }
         let mut changes = Vec::new();
         for _ in 0..t.range(0, 3) {
             let ti = t.below(world.tables.len());
@@ -290,6 +380,9 @@ impl Check for C32 {
         }
         // features for signatures
         let mut trig: Vec<&str> = Vec::new();
+        if case.outer_feats.iter().any(|f| f == "view_alias") {
+            trig.push("view_alias");
+        }
         if case.col_list.is_some() {
             trig.push("column_list");
         }
